@@ -593,6 +593,7 @@ type GenOpts struct {
 	AugSub       bool   // with Aug: the augments are written in a submodule of the augmenting module
 	Prefix       string // prefix of the main module ("" = its name, m)
 	ModName      string // name of the main module ("" = m)
+	ListsOfAll   bool   // leaf-lists of bits and binary too (a leaf-list of empty is not legal)
 	Presence     bool
 	Wraps        bool // write some leaf types through a typedef, as a union member or as a leafref to a sibling
 	NoUnionWrap  bool // ... but not as a union member (stores whose leaves have one Go type)
@@ -630,6 +631,13 @@ func (g *gen) name(scope map[string]bool) string {
 	n := fmt.Sprintf("n%d", g.seq)
 	scope[n] = true
 	return n
+}
+
+func (g *gen) leafListTypes() []string {
+	if g.o.ListsOfAll {
+		return without(g.o.Types, "empty")
+	}
+	return without(g.o.Types, "empty", "binary", "bits")
 }
 
 func (g *gen) typ(allowed []string) *SType {
@@ -693,7 +701,7 @@ func (g *gen) children(depth int, scope map[string]bool, inList bool) []*SNode {
 		switch {
 		case k < 4 || depth >= g.o.MaxDepth:
 			if g.o.LeafLists && g.r.Intn(5) == 0 {
-				ll := &SNode{Kind: LeafList, Name: g.name(scope), Type: g.typ(without(g.o.Types, "empty", "binary", "bits"))}
+				ll := &SNode{Kind: LeafList, Name: g.name(scope), Type: g.typ(g.leafListTypes())}
 				out = append(out, ll)
 			} else {
 				out = append(out, g.leaf(scope, g.o.Types))
@@ -832,7 +840,7 @@ func (g *gen) choice(depth int, scope map[string]bool, nest int) *SNode {
 			case k < 4:
 				cs.Children = append(cs.Children, g.leaf(scope, without(g.o.Types, "empty")))
 			case k < 5 && g.o.LeafLists:
-				cs.Children = append(cs.Children, &SNode{Kind: LeafList, Name: g.name(scope), Type: g.typ(without(g.o.Types, "empty", "binary", "bits"))})
+				cs.Children = append(cs.Children, &SNode{Kind: LeafList, Name: g.name(scope), Type: g.typ(g.leafListTypes())})
 			case k < 6 && depth < g.o.MaxDepth:
 				c := &SNode{Kind: Container, Name: g.name(scope)}
 				c.Children = g.children(depth+1, map[string]bool{}, false)
